@@ -21,6 +21,8 @@ separated by `;`, a list group is `nil`, `e` (empty, non-nil) or integers.
 
 `@ C14 flex C0` : a FlexSlice with `Values = make([]int, 0, C0)`; ops
    append v… | prepend v… | get I | remove I | pop | shift | sub A B | subset A B | len
+   prependw A N   (`f.Prepend(f.Values[A:A+N]...)`: the argument is a window of the receiver's own array)
+   prependc A N   (the same, window anywhere inside the capacity)
    appendn K V0 | prependn K V0   (the K values V0, V0+1, …)     popn K | shiftn K   (K times Pop / Shift:
    answer = sum of the returned values and number of successes)
  every answer ends with `| len cap [backing array]`.
@@ -30,6 +32,7 @@ separated by `;`, a list group is `nil`, `e` (empty, non-nil) or integers.
 -/
 import Golib.Model.C14Arena
 import Golib.Model.C14FlexFast
+import Golib.Model.C14FlexAlias
 
 namespace Golib.C14
 open Golib.Proto
@@ -224,6 +227,23 @@ def flexStep (c : Bool) (f : Flex) (ts : List String) : Option (Option (Flex × 
   | ["prependn", k, v0] =>
     match k.toNat?, v0.toInt? with
     | some k, some v0 => let f' := f.prepend (seqFrom v0 k); some (some (f', s!"ok | {showFlex c f'}"))
+    | _, _ => none
+  | ["prependw", a, n] =>
+    -- `f.Prepend(f.Values[a:a+n]...)`: the argument aliases the receiver (`none` = slice-bounds panic)
+    match a.toNat?, n.toNat? with
+    | some a, some n =>
+      -- the harness reduces the window into the current content: a' = a mod (len+1), n' = min n (len - a')
+      let a' := a % (f.len + 1)
+      let n' := min n (f.len - a')
+      some ((f.prependWin a' n').map fun f' => (f', s!"ok | {showFlex c f'}"))
+    | _, _ => none
+  | ["prependc", a, n] =>
+    -- the same with the window reduced into the CAPACITY (it may reach into the spare cells)
+    match a.toNat?, n.toNat? with
+    | some a, some n =>
+      let a' := a % (f.cap + 1)
+      let n' := min n (f.cap - a')
+      some ((f.prependWin a' n').map fun f' => (f', s!"ok | {showFlex c f'}"))
     | _, _ => none
   | ["popn", k] =>
     match k.toNat? with
